@@ -498,9 +498,11 @@ def r24(ctx):
     pm = {}
     for parent in ast.walk(loop):
         for fld in ('body', 'orelse'):
-            for ch in getattr(parent, fld, []) or []:
-                if isinstance(ch, ast.AST):
-                    pm[ch] = parent
+            sub = getattr(parent, fld, None)
+            if isinstance(sub, list):
+                for ch in sub:
+                    if isinstance(ch, ast.AST):
+                        pm[ch] = parent
     same_block = bool(setc and sete) and pm.get(setc[0]) is pm.get(sete[0]) and \
         'DICTIONARY_PAGE' in src(pm.get(setc[0]))
     ctx.ob('R2.4', 'writer.write_column:cats-flag-set-with-dictionary-page', same_block,
